@@ -30,7 +30,7 @@ THEOREMS = [
 ASSUMPTIONS = base.ASSUMPTIONS + [
     "cost model: one unit per deserialize_value call, per byte returned by stream.read and per declared field of "
     "an instance constructed; compared with the same three counters taken on the real code on every run; real "
-    "allocation and timing are CPython's and only observed (tracemalloc / perf_counter, reported in notes)",
+    "allocation and timing are CPython's and only observed (tracemalloc / process CPU time, reported in notes)",
     "CPython's recursion limit (RecursionError at a few hundred nesting levels) is outside the model; the model "
     "decodes arbitrarily deep input; the nesting-bomb stream is checked on the real code only",
     "cost is linear in input + re-parsed bytes (C14_cost_accounting, every environment); re-parsed = 0 when the decode has "
@@ -54,14 +54,15 @@ def _alarm(signum, frame):
 
 
 def bounded(fn, seconds=10.0):
-    """run fn() under a wall-clock bound; raises Hang"""
-    old = signal.signal(signal.SIGALRM, _alarm)
-    signal.setitimer(signal.ITIMER_REAL, seconds)
+    """run fn() under a CPU-time bound; raises Hang"""
+    # CPU time of this process, not wall-clock time (robust on a loaded machine)
+    old = signal.signal(signal.SIGVTALRM, _alarm)
+    signal.setitimer(signal.ITIMER_VIRTUAL, seconds)
     try:
         return fn()
     finally:
-        signal.setitimer(signal.ITIMER_REAL, 0)
-        signal.signal(signal.SIGALRM, old)
+        signal.setitimer(signal.ITIMER_VIRTUAL, 0)
+        signal.signal(signal.SIGVTALRM, old)
 
 
 # ------------------------------------------------------------------------------------------
@@ -361,7 +362,7 @@ class Monitor:
             tracemalloc.start()
             tracemalloc.reset_peak()
             base_mem = tracemalloc.get_traced_memory()[0]
-        t0 = time.perf_counter()
+        t0 = time.process_time()
         outcome = None
         try:
             v = bounded(lambda: R.S.Serializable.loadb(data, **kwargs), 20.0)
@@ -369,7 +370,7 @@ class Monitor:
         except Hang:
             if trace_mem:
                 tracemalloc.stop()
-            ctx.failure("hang", "decoding %d bytes (%s) did not finish within 20 s" % (n, label), rep)
+            ctx.failure("hang", "decoding %d bytes (%s) did not finish within 20 s of CPU time" % (n, label), rep)
             return True
         except Exception as e:
             outcome = ("err", e)
@@ -378,7 +379,7 @@ class Monitor:
                 tracemalloc.stop()
             ctx.failure("non-ordinary-exception", "decoding raised %r" % (e,), rep)
             return True
-        dt = time.perf_counter() - t0
+        dt = time.process_time() - t0
         if trace_mem:
             peak = tracemalloc.get_traced_memory()[1] - base_mem
             tracemalloc.stop()
